@@ -38,6 +38,10 @@ struct AccCase {
     /// stack targets only: 0 = base is a computed copy of r10 (mov + add), 1 = r10 itself is the
     /// base register and the whole delta sits in the offset field, 2 = an unmodified copy of r10
     direct: u8,
+    /// value of the source-register field: for `stx` the register stored (4 = a known constant,
+    /// 10 = the frame pointer, whose value the monitor does not predict); for `st imm`, where the
+    /// field is unused, a stray value the instruction must ignore
+    src_field: u8,
 }
 
 #[derive(Clone, Copy, Debug)]
@@ -144,11 +148,11 @@ fn build_prog(c: &AccCase, pkt_base: u64) -> Vec<u8> {
             };
             match c.acc {
                 Acc::Ldx => v.push(Insn::new(opc, 0, base, c.off, 0)),
-                Acc::St => v.push(Insn::new(opc, base, 0, c.off, ST_IMM)),
+                Acc::St => v.push(Insn::new(opc, base, c.src_field, c.off, ST_IMM)),
                 Acc::Stx | Acc::Xadd => {
                     v.push(Insn::new(LDDW, 4, 0, 0, STORE_VAL as u32 as i32));
                     v.push(Insn::new(0, 0, 0, 0, (STORE_VAL >> 32) as u32 as i32));
-                    v.push(Insn::new(opc, base, 4, c.off, 0));
+                    v.push(Insn::new(opc, base, if c.acc == Acc::Stx { c.src_field } else { 4 }, c.off, 0));
                 }
                 _ => unreachable!(),
             }
@@ -409,11 +413,11 @@ pub fn run(a: &Args, rep: &mut Report, cl: bool) {
                     if tt.wrapping_sub(pkt_base) > u32::MAX as u64 {
                         continue;
                     }
-                    cases.push(AccCase { acc, width, target: t, off: 0, tag: tname, warm: false, via_set_program: rng.chance(1, 4), direct: 0 });
+                    cases.push(AccCase { acc, width, target: t, off: 0, tag: tname, warm: false, via_set_program: rng.chance(1, 4), direct: 0, src_field: 0 });
                 }
                 Acc::LdInd => {
                     let Target::Abs(_) = t else { continue };
-                    cases.push(AccCase { acc, width, target: t, off: off.max(0), tag: tname, warm: false, via_set_program: rng.chance(1, 4), direct: 0 });
+                    cases.push(AccCase { acc, width, target: t, off: off.max(0), tag: tname, warm: false, via_set_program: rng.chance(1, 4), direct: 0, src_field: 0 });
                 }
                 _ => {
                     // stack targets: half of them addressed through r10 itself (or an unmodified
@@ -433,7 +437,12 @@ pub fn run(a: &Args, rep: &mut Report, cl: bool) {
                         _ => (off, 0, tname),
                     };
                     let warm = direct != 3 && rng.chance(1, 4);
-                    cases.push(AccCase { acc, width, target: t, off, tag: tname, warm, via_set_program: rng.chance(1, 4), direct })
+                    let src_field = match acc {
+                        Acc::Stx => if rng.chance(1, 4) { 10 } else { 4 },
+                        Acc::St => *rng.pick(&[0u8, 0, 0, 10, 2, 7]),
+                        _ => 0,
+                    };
+                    cases.push(AccCase { acc, width, target: t, off, tag: tname, warm, via_set_program: rng.chance(1, 4), direct, src_field })
                 }
             }
         }
@@ -726,7 +735,17 @@ pub fn run(a: &Args, rep: &mut Report, cl: bool) {
                             Acc::Stx => STORE_VAL,
                             _ => 0,
                         };
-                        if in_r1rel {
+                        let unknown_value = c.acc == Acc::Stx && c.src_field == 10;
+                        if unknown_value {
+                            // the frame pointer was stored: only WHERE bytes changed is checked
+                            let lo = addr;
+                            let hi = addr + c.width as u64;
+                            if changes.iter().any(|(a, _)| *a < lo || *a >= hi) {
+                                rep.violation(&format!("{prop}:wrong-store:{sigbase}"), format!("store of r10 at {addr:#x} width {} changed bytes outside the addressed ones: {:?}", c.width, changes), w);
+                            } else {
+                                rep.count("performed_ok");
+                            }
+                        } else if in_r1rel {
                             // the internal buffer is not in the arena snapshots: nothing else may change
                             if !changes.is_empty() {
                                 rep.violation(&format!("{prop}:wrong-store:{sigbase}"), format!("store into the internal buffer changed {} bytes of other memory", changes.len()), w);
